@@ -20,6 +20,67 @@ DENY = re.compile(r"(UnsafeCell|::Cell$|RefCell|OnceCell|Mutex|RwLock|Atomic|Onc
 SHARED_HANDLES = {"std::sync::Arc"}
 
 
+def build_delegation(F):
+    """{name of a build function: detail} for a build function that does not touch the cache itself but hands a builder holding
+    exactly its own mode(s) to the other build function and returns what that returns
+    (`ScannerBuilder::new().add_scanner_mode(self.scanner_mode).build()`)."""
+    cached = F.__dict__.get("_build_delegation")
+    if cached is not None:
+        return cached
+    out = {}
+    pats = {"simple": r"scanner_builder::SimpleScannerBuilder::build$", "multi": r"scanner_builder::ScannerBuilder::build$"}
+    try:
+        from .cursor import Model as VecModel
+        for me, other in (("simple", "multi"), ("multi", "simple")):
+            fn, ofn = F.fn(pats[me]), F.fn(pats[other])
+            if any("SCANNER_CACHE" in str(t.get("callee_path", "")) for _, t in fn.calls()):
+                continue
+            ex, paths = run_fn(fn, F, VecModel(), inline=r"scanner_builder::(ScannerBuilder|SimpleScannerBuilder)::(new|add_scanner_mode|add_scanner_modes)$|ScannerBuilder as std::default::Default>::default$", max_paths=300)
+            rps = ret_paths(paths)
+            if ex.truncated or not rps or len(rps) != len([p for p in paths if p.end[0] != "dead"]):
+                continue
+            ok = True
+            det = ""
+            for p in rps:
+                cs = [e for e in p.events if e[0] == "call" and (e[5].get("resolved") == ofn.key or e[5].get("callee") == ofn.key)]
+                if len(cs) != 1 or p.end[1] != cs[0][4] or p.calls(r"ScannerCache::get$"):
+                    ok = False
+                    break
+                recv = cs[0][7][0] if len(cs[0]) > 7 else cs[0][3][0]
+                recv = ex.deref_val(p, recv) if recv[0] == "ref" else recv
+                own = [("field", ("sym", "self"), "scanner_mode"), ("field", ("sym", "self"), "scanner_modes")]
+                modes = recv[3][0] if recv[0] == "adt" and recv[3] else None
+
+                def vec_of(t_, depth=0):
+                    # the elements of a vector value built by new() + push(..): [..] or None
+                    if t_ is None or depth > 6:
+                        return None
+                    if t_[0] == "vec":
+                        return list(t_[1])
+                    if t_[0] == "app" and re.search(r"Vec::<.*>::(new|with_capacity)$|Vec::(new|with_capacity)$|Default>::default$", str(t_[1])):
+                        return []
+                    if t_[0] == "app" and re.search(r"^mut:.*Vec::<.*>::push$|^mut:.*Vec::push$", str(t_[1])) and len(t_[2]) == 2:
+                        b_ = vec_of(t_[2][0], depth + 1)
+                        return None if b_ is None else b_ + [t_[2][1]]
+                    return None
+                vl = vec_of(modes)
+                if vl is not None:
+                    modes = ("vec", tuple(vl))
+                if modes is not None and modes[0] == "vec" and len(modes[1]) == 1 and modes[1][0] in own:
+                    det = "%s(builder holding [%s])" % (M.short_name(ofn.name), S.fstr(modes[1][0]))
+                elif modes is not None and modes in own:
+                    det = "%s(builder holding %s)" % (M.short_name(ofn.name), S.fstr(modes))
+                else:
+                    ok = False
+                    break
+            if ok and det:
+                out[fn.name] = det
+    except Exception:
+        out = {}
+    F.__dict__["_build_delegation"] = out
+    return out
+
+
 def walk_type(F, t, path, out, seen, closures_for_dyn):
     """Collect findings: out['deny'] / out['unknown'] / out['shared'] / out['visited']."""
     k = t["k"]
@@ -204,8 +265,11 @@ def analyze(ctx, want):
             ok = re.search(r"scanner_builder::(ScannerBuilder|SimpleScannerBuilder)::build$", f_) is not None
             for rule in ("C12.c", "C14.d"):
                 ob(rule, "static-user:%s<-%s" % (sp.split("::")[-1], M.short_name(f_)), ok, "%s is referenced from %s%s" % (sp, f_, "" if ok else " (only the two build functions may touch the cache)"), "")
+    dele = build_delegation(F)
+    for bn, dd in sorted(dele.items()):
+        ob("C14.d", "static-user:SCANNER_CACHE<-%s" % M.short_name(bn), True, "reaches the cache only through the other build function: %s" % dd, "")
     if "C14.d" in want:
-        ctx.floor("C14.d", "functions referencing SCANNER_CACHE", sum(len(v) for v in users.values()), 2)
+        ctx.floor("C14.d", "functions referencing SCANNER_CACHE", sum(len(v) for v in users.values()) + len(dele), 2)
     backdoor = re.compile(r"Arc::<.*>::(get_mut|make_mut|get_mut_unchecked|from_raw|into_raw|as_ptr|try_unwrap)|mem::transmute|ptr::(write|read|copy)|slice::from_raw_parts|Box::<.*>::(leak|from_raw|into_raw)")
     for fn in F.fns.values():
         if is_derived(fn):
@@ -492,7 +556,9 @@ def analyze(ctx, want):
     for pat in (r"scanner_builder::ScannerBuilder::build$", r"scanner_builder::SimpleScannerBuilder::build$"):
         bf = F.fn(pat)
         ctx.analysed_fn(bf)
-        ob("C14.d", "build-takes-the-lock:" + M.short_name(bf.name), bf.name in served, "lock acquired by %s" % [M.short_name(f.name) for f in lockers], bf.loc())
+        via = build_delegation(F).get(bf.name)
+        ob("C14.d", "build-takes-the-lock:" + M.short_name(bf.name), bf.name in served or (via is not None and len(served) >= 1),
+           ("through the other build function: %s" % via) if via else "lock acquired by %s" % [M.short_name(f.name) for f in lockers], bf.loc())
     for fn in lockers:
         locks = [M.call_name(t) for bb, t in fn.calls(LOCK_RX)]
         ok = len(locks) == 1 and locks[0].endswith("::write")
@@ -743,6 +809,10 @@ def analyze(ctx, want):
     # C13.f build functions
     for pat, arg in ((r"scanner_builder::ScannerBuilder::build$", "self.scanner_modes"), (r"scanner_builder::SimpleScannerBuilder::build$", "self.scanner_mode")):
         fn = F.fn(pat)
+        via = build_delegation(F).get(fn.name)
+        if via is not None:
+            ob("C13.f", "build-goes-through-the-cache-with-own-modes:" + M.short_name(fn.name), True, "delegates: " + via, fn.loc())
+            continue
         ex, paths = run_fn(fn, F, BaseModel())
         for p in ret_paths(paths):
             c = p.calls(r"ScannerCache::get$")
